@@ -254,13 +254,16 @@ example : (Proc.run unitStep tailMutant [] () []).2.2.2 = [.called (.setSent [77
 example : mon outδ (Proc.run unitStep tailMutant [] () []).2.2.2 false = none := by decide +kernel
 example : mon armedδ (Proc.run unitStep tailMutant [] () []).2.2.2 false = none := by decide +kernel
 
-/-! ### observation: a lost EOT checksum byte reads as 0
-`readCompressed` ignores the error of the `ReadByte()` that fetches the EOT checksum (fbb/b2f.go:
-`c, _ = s.rd.ReadByte()`), so a frame cut right before its last byte is still accepted when the data bytes
-happen to sum to 0 mod 256. The payload is complete in that case (`frame_prefix_sound` covers it: whatever
-is returned IS the payload sent, and LZHUF's own CRC-16 still guards the content), so C02 is not
-violated — but the frame checksum is not what rejects such a truncation. Witness on a 1-byte payload: -/
+/-! ### observation: a lost EOT checksum byte is a lost connection
+`readCompressed` returns the error of the `ReadByte()` that fetches the EOT checksum (fbb/b2f.go:
+`if c, err = s.rd.ReadByte(); err != nil { return err }`), so a frame cut right before its last byte is never
+accepted, not even when the data bytes happen to sum to 0 mod 256 (before the repair the missing byte read
+as 0 and such a frame was accepted). Witness on a 1-byte payload whose data sum is 0: -/
 example : (match (Proc.run unitStep (readBlocks 1 5 [] 0) [2, 1, 0, 4] () []).1 with
+    | .done (.error .eof) => true
+    | _ => false) = true := by decide +kernel
+/-- with the checksum byte present and right it is accepted -/
+example : (match (Proc.run unitStep (readBlocks 1 5 [] 0) [2, 1, 0, 4, 0] () []).1 with
     | .done (.ok d) => d == [0]
     | _ => false) = true := by decide +kernel
 /-- with the checksum byte present and wrong it IS rejected -/
